@@ -16,7 +16,7 @@ if VERIF not in sys.path:
     sys.path.insert(0, VERIF)
 
 CONTRACT_MODULES = ["c_host_vector", "c_network", "c_environment", "c_state", "c_layout", "c_action", "c_scenarios",
-                    "c_loader"]
+                    "c_loader", "c_score"]
 BOUNDED_QUICK = [{"subnets": [1, 1, 2]}]
 BOUNDED_THOROUGH = [{"subnets": [1, 1, 2]}, {"subnets": [1, 2, 1, 1]}, {"subnets": [1, 1, 1, 1], "n_sens": 2},
                     {"subnets": [1, 3], "n_srv": 1, "n_os": 1, "n_proc": 1}]
@@ -127,7 +127,7 @@ def run_replay(cex, tree, path):
         json.dump(cex, f, indent=1)
     env = dict(os.environ, NASIM_TREE=tree, PYTHONPATH=tree)
     harness = cex.get("harness", "")
-    script = os.path.join(VERIF, "replay", "loader_replay.py" if harness == "loader" else
+    script = os.path.join(VERIF, "replay", "hops_replay.py" if harness == "hops" else "loader_replay.py" if harness == "loader" else
                           ("gen_replay.py" if harness.startswith("gen") else "dyn_replay.py"))
     p = subprocess.run([sys.executable, script, path], env=env, stdout=subprocess.PIPE, stderr=subprocess.STDOUT,
                        text=True, timeout=600)
@@ -284,6 +284,8 @@ def check_property(prop, tier="quick", tree="/repo", record=False, jobs=None, le
     # ---- vanished obligations
     if exp and not record:
         for name, st in exp.items():
+            if ":raises:" in name or name.startswith("pre@"):
+                continue        # exceptional-exit / call-site obligations exist only while such a path is explored
             if name not in agg and name not in bagg and not limits:
                 D.failures.append(f"obligation vanished: {name}")
     # ---- vacuity: every bounded task must have at least one feasible normal exit
